@@ -8,7 +8,7 @@ fi
 id="$1"; tier="${2:-quick}"
 # resource guard: on the unchanged tree every check finishes in about a minute (quick) / a few minutes (thorough) and
 # stays far below the memory limit. A tree on which the verifier cannot finish is reported as undecided, not hung.
-limit=1500; [ "$tier" = thorough ] && limit=5400
+limit=1500; [ "$tier" = thorough ] && limit=5400; [ -n "$VERIF_LIMIT_S" ] && limit=$VERIF_LIMIT_S
 out="${VERIF_OUT_DIR:-/verif}"
 ( ulimit -v 50331648; exec timeout -k 10 "$limit" /verif/bin/govc check "$id" --tier "$tier" )
 rc=$?
